@@ -268,6 +268,7 @@ def compare_all(repo, only=None):
       avn.reset_atoms()
       mj, custom = mock(spec, with_iq)
       want = expected(mj, custom)         # before the loader runs: load_model writes into mj.jnt_range in place
+      before = {k: (v.copy() if isinstance(v, np.ndarray) else v) for k, v in mj.f.items()}
       try:
         sysv = run_loader(repo, mj, custom)
       except avn.OutOfFragment as e:
@@ -282,6 +283,23 @@ def compare_all(repo, only=None):
         if not with_iq and path != 'init_q':
           continue
         out.append((spec['name'], path, equal(get_path(sysv, path), w)))
+      # the mjModel is kept as sys.mj_model and validated LATER (pipeline.init -> validate_model): the loader may
+      # overwrite, in place, only what validation reads identically afterwards -- the ranges of joints / actuators whose
+      # *limited flag is off (set to +-inf, which is how validate_model itself reads them)
+      if only is None and with_iq:
+        for k, b in before.items():
+          a = mj.f[k]
+          if not isinstance(b, np.ndarray):
+            continue
+          ok = isinstance(a, np.ndarray) and a.shape == b.shape
+          if ok:
+            flag = {'jnt_range': 'jnt_limited', 'actuator_ctrlrange': 'actuator_ctrllimited',
+                    'actuator_forcerange': 'actuator_forcelimited'}.get(k)
+            for idx in np.ndindex(*b.shape):
+              same_ = (a[idx] == b[idx]) if b.dtype != object else Rat.lift(a[idx]).same(Rat.lift(b[idx]))
+              if not same_ and not (flag is not None and int(mj.f[flag][idx[0]]) != 1):
+                ok = False
+          out.append((spec['name'], 'mjModel.%s is left as it was (validate_model reads the model after load_model)' % k, bool(ok)))
   return out
 
 
